@@ -230,6 +230,16 @@ def observe(job):
             cat.append(s)
         meta = dict(META) if job["meta"] else None
         try:
+            if ext == "db" and job["seed"] % 2 == 0:
+                # a database file that already holds an earlier, mixed catalogue is replaced by the
+                # save under test (Catalogue!BeginSave on a non-fresh base.db)
+                pre = []
+                for t, vals in make_rows([["comp", "typ"], ["isle", "typ"], ["simp", "typ"], ["isle", "m1"]], job["seed"] + 17):
+                    ps = cls[t]()
+                    for n in names[t]:
+                        setattr(ps, n, vals[n])
+                    pre.append(ps)
+                catalogs.save_catalog(os.path.join(d, "o." + ext), pre, meta=None, prefix=None)
             catalogs.save_catalog(os.path.join(d, "o." + ext), cat, meta=meta, prefix=prefix or None)
         except Exception as e:
             rec["err"] = "save_catalog: %s: %s" % (type(e).__name__, str(e)[:200])
